@@ -201,4 +201,138 @@ theorem unpackFrom_bounds {args : Bytes} {n ptr : Nat} {fs : List Bytes} {p : Na
     · subst h0; simp [unpackFrom] at hr; omega
     · omega
 
+/-! ### decode ∘ encode the other way round: only packed inputs are accepted -/
+
+theorem ofNat_congr {x y : Nat} (h : x % 256 = y % 256) : UInt8.ofNat x = UInt8.ofNat y := by
+  apply UInt8.toNat_inj.mp
+  simp only [UInt8.toNat_ofNat']
+  have : (2 : Nat) ^ 8 = 256 := by decide
+  rw [this]; exact h
+
+theorem encodeBE_add_mul (n a v : Nat) : encodeBE n (a * 256 ^ n + v) = encodeBE n v := by
+  induction n generalizing a with
+  | zero => rfl
+  | succ k ih =>
+    simp only [encodeBE]
+    have hpos : 0 < 256 ^ k := Nat.pow_pos (by decide)
+    have e1 : a * 256 ^ (k + 1) + v = (a * 256) * 256 ^ k + v := by
+      rw [Nat.pow_succ, Nat.mul_comm (256 ^ k) 256, Nat.mul_assoc]
+    rw [e1, ih (a * 256)]
+    congr 1
+    apply ofNat_congr
+    rw [Nat.add_comm, Nat.add_mul_div_right _ _ hpos, Nat.add_mul_mod_self_right]
+
+theorem beVal_cons (b : UInt8) (bs : Bytes) : beVal (b :: bs) = b.toNat * 256 ^ bs.length + beVal bs := by
+  have : ∀ (l : Bytes) (acc : Nat),
+      l.foldl (fun a x => a * 256 + x.toNat) acc = acc * 256 ^ l.length + l.foldl (fun a x => a * 256 + x.toNat) 0 := by
+    intro l
+    induction l with
+    | nil => intro acc; simp
+    | cons x l ih =>
+      intro acc
+      simp only [List.foldl_cons, List.length_cons]
+      rw [ih (acc * 256 + x.toNat), ih (0 * 256 + x.toNat)]
+      rw [Nat.pow_succ, Nat.add_mul, Nat.add_mul]
+      simp only [Nat.zero_mul, Nat.zero_add, Nat.mul_assoc, Nat.mul_comm 256 (256 ^ l.length)]
+      omega
+  unfold beVal
+  simp only [List.foldl_cons]
+  rw [this bs (0 * 256 + b.toNat)]
+  simp
+
+theorem beVal_lt (bs : Bytes) : beVal bs < 256 ^ bs.length := by
+  induction bs with
+  | nil => simp [beVal]
+  | cons b bs ih =>
+    rw [beVal_cons, List.length_cons, Nat.pow_succ]
+    have hb : b.toNat < 256 := by
+      have := b.toNat_lt
+      simpa using this
+    have : b.toNat * 256 ^ bs.length ≤ 255 * 256 ^ bs.length := Nat.mul_le_mul_right _ (by omega)
+    omega
+
+/-- `to_be_bytes(from_be_bytes(b)) = b`: with `decodeBE_encodeBE_append` this makes the
+fixed-width integer codecs bijections between values and byte strings of their width. -/
+theorem encodeBE_beVal (bs : Bytes) : encodeBE bs.length (beVal bs) = bs := by
+  induction bs with
+  | nil => rfl
+  | cons b bs ih =>
+    have hlt := beVal_lt bs
+    have hpos : 0 < 256 ^ bs.length := Nat.pow_pos (by decide)
+    rw [List.length_cons, beVal_cons]
+    simp only [encodeBE]
+    rw [encodeBE_add_mul, ih]
+    congr 1
+    rw [Nat.add_comm, Nat.add_mul_div_right _ _ hpos, Nat.div_eq_of_lt hlt, Nat.zero_add]
+    exact UInt8.ofNat_toNat
+
+theorem unpackArg_sound {args : Bytes} {ptr : Nat} {f : Bytes} {p : Nat}
+    (h : unpackArg args ptr = some (f, p)) :
+    p = ptr + (8 + f.length) ∧ p ≤ args.length ∧ f.length + 8 < wordLimit ∧
+    (args.drop ptr).take (8 + f.length) = encodeBE 8 f.length ++ f := by
+  unfold unpackArg at h
+  simp only at h
+  split at h; · simp at h
+  split at h; · simp at h
+  split at h; · simp at h
+  split at h; · simp at h
+  rename_i h1 h2 h3 h4
+  simp only [Option.some.injEq, Prod.mk.injEq] at h
+  obtain ⟨hf, hp⟩ := h
+  have hlen : f.length = beVal ((args.drop ptr).take 8) := by
+    rw [← hf, List.length_take, List.length_drop]; omega
+  have hhdr : ((args.drop ptr).take 8).length = 8 := by
+    rw [List.length_take, List.length_drop]; omega
+  refine ⟨by omega, by omega, by omega, ?_⟩
+  rw [List.take_add, List.drop_drop]
+  congr 1
+  · have := encodeBE_beVal ((args.drop ptr).take 8)
+    rw [hhdr] at this
+    rw [hlen]; exact this.symm
+  · rw [hlen]; exact hf
+
+theorem unpackFrom_sound {args : Bytes} : ∀ (n ptr : Nat) (fs : List Bytes) (p : Nat),
+    unpackFrom args n ptr = some (fs, p) →
+    fs.length = n ∧ ptr ≤ p ∧ pack fs = some ((args.drop ptr).take (p - ptr)) := by
+  intro n
+  induction n with
+  | zero =>
+    intro ptr fs p h
+    simp only [unpackFrom, Option.some.injEq, Prod.mk.injEq] at h
+    obtain ⟨rfl, rfl⟩ := h
+    simp [pack]
+  | succ n ih =>
+    intro ptr fs p h
+    simp only [unpackFrom] at h
+    split at h; · simp at h
+    rename_i f p' ha
+    split at h; · simp at h
+    rename_i fs' p'' hr
+    simp only [Option.some.injEq, Prod.mk.injEq] at h
+    obtain ⟨rfl, rfl⟩ := h
+    obtain ⟨hp', _, hw, htake⟩ := unpackArg_sound ha
+    obtain ⟨hl, hle, hpack⟩ := ih p' fs' p'' hr
+    refine ⟨by simp [hl], by omega, ?_⟩
+    have e : p'' - ptr = (8 + f.length) + (p'' - p') := by omega
+    rw [e, List.take_add, List.drop_drop, htake, ← hp']
+    simp only [pack, packField, hw, if_true, hpack]
+
+/-- Whatever the generated decoder accepts is exactly a packed field list: `unpack` accepts
+`args` iff `args = pack fs` — no short, trailing, overlapping or overflowing framing passes. -/
+theorem unpack_sound {n : Nat} {args : Bytes} {fs : List Bytes} (h : unpack n args = some fs) :
+    fs.length = n ∧ pack fs = some args := by
+  unfold unpack at h
+  split at h
+  · rename_i fs' p hu
+    split at h
+    · rename_i hp
+      simp only [Option.some.injEq] at h
+      subst h
+      obtain ⟨hl, _, hpack⟩ := unpackFrom_sound n 0 fs' p hu
+      refine ⟨hl, ?_⟩
+      rw [hpack, hp]
+      simp
+    · simp at h
+  · simp at h
+
 end Codec
